@@ -19,11 +19,23 @@ import (
 	"gosym/interp"
 )
 
-const (
-	verifRoot  = "/verif"
-	repoModule = "/repo/utils"
-	modPath    = "github.com/ARM-software/golang-utils/utils"
+const modPath = "github.com/ARM-software/golang-utils/utils"
+
+// The registered commands run from /verif against /repo. A copy of /verif
+// (a snapshot, or the scratch copy the seed regression works in) finds itself
+// through VERIF_ROOT, which ./check sets to its own directory; VERIF_REPO points
+// the scratch copy at a scratch worktree instead of /repo.
+var (
+	verifRoot  = envOr("VERIF_ROOT", "/verif")
+	repoModule = filepath.Join(envOr("VERIF_REPO", "/repo"), "utils")
 )
+
+func envOr(name, def string) string {
+	if v := os.Getenv(name); v != "" {
+		return v
+	}
+	return def
+}
 
 type tierSpec struct {
 	MaxSteps     int64 `json:"max_steps"`
